@@ -2,7 +2,7 @@ SPECIFICATION Spec
 CONSTANTS
   Ks = {0, 1, 2, 3, 4}
   NLabels = 3
-  Limits = {0, 1, 2}
+  Limits = {0, 2}
   EmitMode = "done"
 INVARIANTS SortedOnce NoLoss SetsMatchRef HeapOK
 ACTION_CONSTRAINT Emit
